@@ -24,8 +24,8 @@ Fixpoint enc_nodes (ls : list (FLay f32)) (ns : list stats) : list Z :=
   | _, _ => []
   end.
 
-(* trees of `vh taffytree cases` are at most 5 levels deep, the chains of `vh taffytree chains` at most 9 *)
-Definition REAL_FUEL : nat := 12.
+(* trees of `vh taffytree cases` are at most 5 levels deep, the chains of `vh taffytree chains` at most 17 *)
+Definition REAL_FUEL : nat := 20.
 
 Definition sumN (f : stats -> N) (ps : list (list (FLay f32) * list stats)) : Z :=
   Z.of_N (fold_right N.add 0%N (map (fun p => fold_right N.add 0%N (map f (snd p))) ps)).
